@@ -17,8 +17,8 @@ CLAIMS = {
          "Async lowering modelled as arbitrary finite Pending counts. CmdShape.v is a hand transcription of get_method's command arm. " + TB, "5 C09"),
  "C10": ("Theorems C10_passthrough, C10_write_all(+meaning), C10_read_exact(+meaning), C10_async_equiv, C10_trait_equiv (incl. termination by fuel lemma) over the transcribed buffer.rs and the embedded-io provided methods; tie = every outcome sequence over {accept 1..n, 0, Err} at the bound x entry points (inherent / trait / async) vs the extracted model.",
          "embedded-io 0.6.1 provided methods transcribed from the registry source. " + TB, "5 C10"),
- "C06": ("C06_emitted_sets_are_the_declared_ones, C06_getter_reads_declared_range / C06_setter_writes_declared_range (composition of the emission model with the C01 layout theorems), C06_carrier_minimal, C06_getter_iff_readable / setter_iff_writable, C06_effective_byte_order; tie = every field-set fact of the real token stream vs FieldSetGen.v on the real MIR in all four syntaxes + an abstract-definition oracle for effective orders/access (finds D5, known finding) + compiled field sets driven with bytes vs the Coq reference interpreter.",
-         "From/Into/bit-operator bodies are constant emitted text: observed (L2), not modelled. Name normalisation is modelled in C14 (Case.v). " + TB, "5 C06"),
+ "C06": ("C06_emitted_sets_are_the_declared_ones, C06_getter_reads_declared_range / C06_setter_writes_declared_range (composition of the emission model with the C01 layout theorems), C06_carrier_minimal, C06_getter_iff_readable / setter_iff_writable, C06_effective_byte_order, C06_bytes_roundtrip / C06_binops_act_on_all_bits / C06_not_acts_on_all_bits (byte array in and out, &,|,^,! on every bit), C06_ops_choice_from_source (the (byte order, bit order) -> ops function table TRANSLATED from field_set_transform.rs on every build); tie = every field-set fact of the real token stream vs FieldSetGen.v on the real MIR in all four syntaxes + an abstract-definition oracle for effective orders/access (finds D5, known finding) + compiled field sets driven with bytes vs the Coq reference interpreter.",
+         "From/Into/bit-operator bodies are constant emitted text, modelled as such (fs_from_bytes .. fs_not) and compared with the compiled field sets at L2. Name normalisation is modelled in C14 (Case.v). " + TB, "5 C06"),
  "C11": ("C11_accept_iff_wf (both directions, every device, any nesting), C11_error_names_object, C11_overlap_all_pairs over the transcribed byte_order_specified / bool_fields_checked / bit_ranges_validated; tie = boundary-biased layouts in four syntaxes through the real transform_*, model evaluated on the MIR the real front end produced, accept/reject + error kind + names compared; generator panic = violation.",
          "Text->MIR front ends are exercised, not modelled (C16). " + TB, "5 C11"),
  "C17": ("C17_ops_exist_iff etc. proved over tables TRANSLATED from lib.rs / register.rs / buffer.rs on every run (a source edit that changes which operations an access offers breaks the proof), plus field accessor and effective-access theorems; tie for 'does / does not compile': a probe crate with one function per (placement, access, operation), rustc diagnostics mapped per probe and compared with the model's forbidden set.",
@@ -26,26 +26,26 @@ CLAIMS = {
  "C20": ("C20_accepted_output_order_independent, C20_error_order_refuted (+partial), C20_cli_status, C20_dispatch_on_extension over models of the hash-container passes (iteration order an explicit parameter) and of the CLI/macro dispatch; run-time facts (process/thread/hash-seed independence, files, macro expansion) tied by repeated CLI processes, threads, -o vs stdout, and a create_device! crate next to included CLI output.",
          "Partial by nature: determinism of the real binary is observed over K runs, not proved; D13 (error choice among several dangling refs) is a known finding. " + TB, "5 C20"),
 
- "C19": ("PARTIAL BY NATURE. Coq carries the name/reference/literal obligations of the emitted items (Emit.v: wf_output): machine-checked refutations with witnesses (D7 WO field, D8 negative stride under an unsigned address type, D9 block ref duplicates, D12 duplicate discriminant, D16 negative discriminant on uint, D17 signed discriminant beyond iN, D20 output-identifier collisions names_unique does not see, D21 keyword identifiers); the failing obligation Emit.v computes on the real MIR of EVERY compiled definition is compared with rustc's verdict (no failing obligation => must compile; a failing obligation => must fail with that class's recorded error; a predicted failure that compiles breaks the correspondence) and C19_wf_output_partial for definitions outside those classes; that rustc accepts the output is tied by the correspondence alone: batches of accepted cfg-free definitions over the documented language are cargo-checked as no_std-compatible modules, every diagnostic mapped to its definition; known classes must fail exactly as recorded, anything else is a violation; syn parse and accessor presence are checked too.",
+ "C19": ("PARTIAL BY NATURE. Coq carries the name/reference/literal obligations of the emitted items (Emit.v: wf_output): machine-checked refutations with witnesses (open classes: D7 WO field, D20 output-identifier collisions names_unique does not see, D21 keyword identifiers, D22 a literal of the address arithmetic outside the type of its position; repaired in /repo, obligation kept so that a return is reported: D8, D9 block-ref duplicates, D12, D16, D17); the failing obligation Emit.v computes on the real MIR of EVERY compiled definition is compared with rustc's verdict (no failing obligation => must compile; a failing obligation => must fail with that class's recorded error; a predicted failure that compiles breaks the correspondence) and C19_wf_output_partial for definitions outside those classes; that rustc accepts the output is tied by the correspondence alone: batches of accepted cfg-free definitions over the documented language are cargo-checked as no_std-compatible modules, every diagnostic mapped to its definition; known classes must fail exactly as recorded, anything else is a violation; syn parse and accessor presence are checked too.",
          "rustc/cargo are the observers; Rust's type system is not modelled. " + TB, "5 C19"),
 
  "C04": ("C04_address_chain_exact / C04_address_exact (induction over any chain of nested block accessors: the emitted checked arithmetic, if it does not panic, equals sum(offset + index*stride) in the integers, negative values included), C04_index_guard(+chain), C04_ref_address, C04_read_all_visits, C04_read_all_reports_bus_address_nonroot/_root (reported address = bus address; D2 was repaired in /repo); tie = accepted random trees compiled with a recording mock: every valid index tuple and the first invalid index per level called in a debug build; bus address vs the Coq model on the real MIR and vs the property's formula from the abstract definition; read_all_registers on every block instance.",
-         "Block refs are outside (D9: their output does not compile); index-as-IT wrap and IT overflow are C13's (D3/D3b). " + TB, "5 C04"),
+         "Block refs are inside since D9 was repaired in /repo (7e1bb11): their accessors and every path through them are generated, modelled (Addr04.block_children) and compiled; index-as-IT wrap and IT overflow are C13's (D3/D3b). " + TB, "5 C04"),
 
  "C08": ("C08_accept_iff, C08_bytes, C08_no_bit_at_or_above_size, C08_out_of_range_bit_uses_C01_numbering (the rejection rule is stated with C01's setbit), C08_never_panics for EVERY size 1..128 by bit-level reasoning, plus device-level C08_new_constructor, C08_ref_override_own_constructor, C08_ref_without_override_uses_new over the transcribed reset_values_converted and the emitter's constructors; tie = per size x orders x forms x boundary values: real generator vs Coq model on the real MIR vs a transcription of the property text (L1 constructor literals) and compiled drivers' write(|_| ()) wire bytes (L2).",
          "bitvec's Lsb0/Msb0 views are modelled by their documented numbering. " + TB, "5 C08"),
  "C12": ("C12_claimed_eq_instances (the pass's expansion = the spec's instance list for every tree incl. block repeats, nesting, refs, block refs), C12_pairwise_complete, C12_reject_iff_collision (full since the repair of D10), C12_kinds_never_collide, C12_error_names_both; tie = near-colliding trees (exhaustive pair family + random) through the real generator vs model and spec on the real MIR: verdict, both names with indices, address.",
          "Fuel-bounded expansion: a block named like the device loops forever in the real pass (D11b, noted). " + TB, "5 C12"),
- "C13": ("Five machine-checked refutations (D3, D3b, D4, D4b, D4c: genuine defects, known findings) and C13_untagged_partial: for any accepted tree every instance outside those classes fits its address type and the emitted checked arithmetic returns exactly the mathematical address; C13_walk_is_structural, C13_internal_type_covers, C13_error_states_bound, C13_missing_type_rejected (full); tie = trees near the type bounds over all seven address types vs an exact Z oracle, plus compiled drivers in debug (overflow panics) and release (wrap) for extreme index tuples.",
+ "C13": ("Five machine-checked refutations (D3, D3b, D4, D4b, D4c: genuine defects, known findings) and C13_untagged_partial: for any accepted tree every instance outside those classes fits its address type and the emitted checked arithmetic returns exactly the mathematical address; C13_walk_is_structural, C13_internal_type_covers, C13_address_type_bounds_from_source (Integer::min_value / max_value TRANSLATED from mir/mod.rs on every build), C13_error_states_bound, C13_missing_type_rejected (full); tie = trees near the type bounds over all seven address types vs an exact Z oracle, plus compiled drivers in debug (overflow panics) and release (wrap) for extreme index tuples.",
          "Partial because the code is wrong (min/max walk ignores block repeats for children, block refs, refs keeping the target's address/repeat). " + TB, "5 C13"),
- "C14": ("C14_accept_iff (full iff for cfg-free definitions, any depth, over an ASCII model of convert_case 0.6), C14_search_finds_declared, C14_accepted_refs_resolve, C14_lowering_terminates_iff_acyclic, C14_self_ref_refuted (D11), front-end rejection theorems, C14_snake_idempotent, C14_pascal_idempotent_refuted/_partial, C14_device_name_check; tie = (A) thousands of ASCII names through the real front ends vs Case.v, (B) trees with colliding spellings / dangling / wrong-kind refs / layout overrides vs the model on the real MIR (error kind + names; resolved targets; emitted names).",
+ "C14": ("C14_accept_iff (full iff for cfg-free definitions, any depth, over an ASCII model of convert_case 0.6), C14_search_finds_declared, C14_accepted_refs_resolve, C14_lowering_terminates_iff_acyclic, C14_recursive_check_iff / _total (the repaired refs_validated rejects exactly the recursive block refs; D11 was repaired in /repo df1ac90), C14_accepted_is_acyclic, C14_accepted_expansion_terminates, C14_self_ref_refuted (historical), front-end rejection theorems, C14_snake_idempotent, C14_pascal_idempotent_refuted/_partial, C14_device_name_check; tie = (A) thousands of ASCII names through the real front ends vs Case.v, (B) trees with colliding spellings / dangling / wrong-kind refs / layout overrides vs the model on the real MIR (error kind + names; resolved targets; emitted names).",
          "convert_case modelled for ASCII only; uniqueness over (name, cfg) pairs is stated for cfg-free definitions. " + TB, "5 C14"),
  "C18": ("C18_gates_are_conjunctions_fixed / C18_fixed_walk_correct (all trees, by tree induction with a stack invariant; the model follows the repaired walk since /repo 7d9ba5c), C18_combine_atoms, C18_no_cfg_unconditional, C18_never_panics, and the historical C18_multi_level_exit_refuted / C18_partial about the pop-once walk (D6, fixed); tie = random trees of depth 0..4 with frequent multi-level exits: every #[cfg] attribute of every emitted item (flattened atom sets and literal all(..) nesting) vs the model and vs the structural spec.",
          "cfg predicates are treated as opaque atoms. " + TB, "5 C18"),
 
  "C07": ("C07_roundtrip, C07_from_num_precedence, C07_error_payload, C07_infallible_getter_total (UnsafeInto chosen => the getter is Ok for every bit pattern, incl. reuse by name on narrower/equal fields) over a model of the emitted match (first arm wins), Default and the getter choice in which an Err at unwrap_unchecked is UB; C07_cfg_reuse_refuted (genuine defect D18: same-named enums under exclusive cfgs) with C07_infallible_getter_total_partial for cfg-free definitions; tie = compiled enums and getters evaluated on EVERY raw value 0..2^w-1 (debug; Miri on the unsafe subset in the thorough tier) vs the Coq tables.",
          "rustc/Miri are the observers of UB symptoms; cfg-free scope for the full statement. " + TB, "5 C07"),
- "C15": ("C15_numberings_agree, C15_implicit_numbering, C15_reject_iff_after_repair (the full iff since D12 was fixed in /repo), C15_reject_sound, C15_infallible_iff_total (fuelled coverage walk = unbounded statement, pigeonhole), C15_device_accept_iff; historical C15_duplicate_numbers_refuted / _partial about the unrepaired pass; tie = exhaustive enums at small bounds + random (widths 1..16, cfg, int, 4 syntaxes): verdict, error kind and the emitted discriminants vs model and spec on the real MIR.",
+ "C15": ("C15_numberings_agree, C15_implicit_numbering, C15_reject_iff_after_repairs (the full iff for the pass as it is since D12, D16 and D17 were fixed in /repo: 'does not fit' = above 2^w-1, below 0 on an unsigned field, outside the signed repr of an int field), C15_reject_iff_after_repair (the D12-only model, historical), C15_reject_sound, C15_infallible_iff_total (fuelled coverage walk = unbounded statement, pigeonhole), C15_device_accept_iff; historical C15_duplicate_numbers_refuted / _partial about the unrepaired pass; tie = exhaustive enums at small bounds + random (widths 1..16, cfg, int, 4 syntaxes): verdict, error kind and the emitted discriminants vs model and spec on the real MIR.",
          "Widths >= 127 bits panic in a debug-profile generator (noted, outside the property's 1..16). " + TB, "5 C15"),
 
  "C16": ("C16_front_ends_agree (FULL, no hypothesis on the defaults since D5 was repaired): for every well-formed abstract definition and every structural spelling, lower_dsl (to_dsl d) and lower_manifest (to_manifest d) give the same MIR or reject in the same class; C16_both_implement_the_meaning, C16_same_decision_and_output, C16_defaults_applied, C16_defaults_ignored_would_differ (the pre-fix lowering differs: not vacuous), C16_dsl_first_item_wins; tie = (text) six streams of abstract definitions rendered into DSL/JSON/YAML/TOML with random spellings: verdict, tokens hash and MIR Debug strings identical across the four; (model) Front.v's two lowerings vs the real MIR of each front end.",
